@@ -56,7 +56,7 @@ Fixpoint groups_shape_ok (fs : list finfo) (since_req : bool) (inrun : nat) (pre
 
 Definition unambiguous (ti : tinfo) : bool :=
   match ti_prefix ti with
-  | Some p => is_nil_b (fi_embptr p) && negb (o_haslen (fi_opts p))
+  | Some p => is_nil_b (fi_embptr p) && negb (o_haslen (fi_opts p)) && is_nil_b (o_param (fi_opts p))
   | None => true
   end
   && negb (is_nil_b (ti_fields ti))
@@ -127,7 +127,9 @@ Definition presentable (cb : callbacks) (ti : tinfo) (sv : sval) : bool :=
                     | Some s => prefix_shaped s && field_rt cb p sv
                     | None => false
                     end
-                  else first_ok        (* an omitted optional prefix: the text must not look like it has one *)
+                  else first_ok        (* an omitted optional prefix: the text must not look like it has one ... *)
+                       && match text_of cb p sv with Some [] => true | _ => false end
+                                       (* ... and Marshal, which writes the prefix unconditionally, writes nothing *)
       | None => first_ok
       end)
   && forallb (fun fi => match text_of cb fi sv with Some s => clean s | None => false end
@@ -172,6 +174,9 @@ Fixpoint nodup_paths (l : list (list nat)) : bool :=
   match l with [] => true | x :: r => negb (existsb (path_eqb x) r) && nodup_paths r end.
 Definition paths_ok (ti : tinfo) : bool :=
   nodup_paths (map fi_index ((match ti_prefix ti with Some p => [p] | None => [] end) ++ ti_fields ti)).
+
+(* NumReqValues is the count normalize computes (true of every tinfo built by type_info) *)
+Definition numreq_ok (ti : tinfo) : bool := ti_numreq ti =? count_req (ti_fields ti) false.
 
 (* the field-wise agreement used in the round-trip statements *)
 Definition agree (m e : list (list nat * fval)) : Prop :=
